@@ -92,7 +92,8 @@ def o_roundtrip(case):
     nt, ns, three_d = case["towers"], case["steps"], case["three_d"]
     ny, nx, nzo = 4, 5, 3
     x, y, z = np.arange(nx) * 7.5, np.arange(ny) * 2.5, np.array([0.1, 1.7, 4.2])
-    names = ["tower-%d" % k for k in range(nt)]
+    pool = ["north", "east", "annex", "T10", "T9", "zeta", "Mast B", "mast a"]
+    names = [str(x) for x in rng.permutation(pool)[:nt]]
     z0f = case["z0_forcing"]
     results = {}
     for k, n in enumerate(names):
